@@ -11,6 +11,7 @@ import procoracle as po
 FAMILIES = ['mixture', 'solver', 'process', 'curve']
 BRIDGES = ['br_act_', 'br_pp_', 'br_to_', 'br_flux_', 'br_solve_', 'br_proc_', 'br_curve_', 'br_metric_', 'br_pm_', 'br_sepfactor_']
 PROPS_V = 'Props/C06.v'
+EXTRA_TARGETS = ['Model/NumCheck.vo']
 BUDGET = {'quick': 250, 'thorough': 6000}
 ORACLE_RULE = ('built-in and synthetic mixtures and their relabelled twins (parameters, composition p -> 1-p, permeances, experiments exchanged) x both activity models x all '
                'permeate modes: activity coefficients, partial pressures, fluxes, one-point ideal curves incl. separation factor / selectivity, ideal isothermal and '
@@ -110,6 +111,14 @@ def oracle(rng, tier):
             yield {'kind': what + ':raised', 'case': case, 'ok': True, 'detail': '', 'nontrivial': False}
             continue
         yield {'kind': kindp, 'case': case, 'ok': ok, 'detail': '' if ok else detail}
+
+
+def correspondence(tier, seed):
+    import corr_numeric
+    budget = {'thermo': 30, 'solver': 15}
+    if tier == 'thorough':
+        budget = {k: v * 12 for k, v in budget.items()}
+    return corr_numeric.run(seed, budget, nmax=30 if tier == 'quick' else 200, tag='C06')
 
 
 def replay(rep):
